@@ -287,6 +287,33 @@ theorem final_kept_history (ord : List Group → List Group) (steps : List Step)
   rw [final_is_final_history ord steps w id hst, hp]
   simp [finalKept, hs]
 
+/-- The status a claim reports is the status stored (`reportedIsStored`), and once it is SUCCESS or FAILED every later
+    claim about the prophecy is refused with the whole state — that status, every balance, the supply — unchanged
+    (`finalByLedger`, which the driver evaluates with the statuses the implementation's messages reported). -/
+theorem final_by_ledger (ord : List Group → List Group) (vals : List Validator) (s : BState) (m m2 : ClaimMsg)
+    (status : StatusText) (h : (deliver ord vals s (.claim m)).2 = .claimed status) (hid : (claimOf m2).id = (claimOf m).id) :
+    reportedIsStored status (some (statusOf (deliver ord vals s (.claim m)).1.oracle (claimOf m).id)) = true ∧
+    finalByLedger status (deliver ord vals (deliver ord vals s (.claim m)).1 (.claim m2)).2.isOk
+      (some (statusOf (deliver ord vals (deliver ord vals s (.claim m)).1 (.claim m2)).1.oracle (claimOf m).id))
+      true = true ∧
+    (status ≠ .pending → (deliver ord vals (deliver ord vals s (.claim m)).1 (.claim m2)).1 = (deliver ord vals s (.claim m)).1) := by
+  rcases deliver_claim_cases ord vals s m with ⟨f, hd⟩ | ⟨s', st, hc, hd⟩
+  · rw [hd] at h; cases h
+  · rw [hd] at h ⊢
+    cases h
+    obtain ⟨o, fin, hp, eo, _⟩ := createClaim_ok hc
+    obtain ⟨_, sa, _⟩ := processClaim_status hp
+    have hst : statusOf s'.oracle (claimOf m).id = status := by rw [eo]; exact sa
+    simp only
+    by_cases hpend : status = .pending
+    · subst hpend
+      exact ⟨by simp [reportedIsStored, hst], by simp [finalByLedger], fun hne => (hne rfl).elim⟩
+    · have hnp : statusOf s'.oracle (claimOf m2).id ≠ .pending := by rw [hid, hst]; exact hpend
+      obtain ⟨f, hf⟩ := final_claim_changes_nothing ord vals s' m2 hnp
+      rw [hf]
+      refine ⟨by simp [reportedIsStored, hst], ?_, fun _ => rfl⟩
+      simp [finalByLedger, Out.isOk, hst]
+
 /-! ### independence of the map iteration order -/
 
 /-- `processCompletion` (status and final claim) does not depend on the order in which the range over the Go
